@@ -16,11 +16,13 @@ ORD = sp.Function("Ord")
 
 def run(repo, R):
     R.rule("INPUTS", "the public wrapper uses its parameters as given: no path replaces one by a filtered/re-ordered/scaled/defaulted copy")
-    from ..flow import check_wrapper_inputs
+    R.rule("DISPATCH", "the wrapper assembles Cartesian, spherical, mixed and transformed results through the four assembly routes, same keywords on each")
+    from ..flow import check_wrapper_inputs, check_wrapper_dispatch
     for _w in ['gbasis.integrals.moment.moment_integral']:
         _wf = repo.func(_w)
         R.note_function(_wf.qualname)
         check_wrapper_inputs(repo, _wf, R)
+        check_wrapper_dispatch(repo, _wf, R, "DISPATCH")
     R.rule("MPT", "every returned block of the moment kernel is derived from the recursion (no data-dependent shortcut)")
     from .mpt import must_pass_through
     must_pass_through(repo, R, repo.func(MOMENT))
